@@ -1796,9 +1796,11 @@ def run_cmd_faults(case, ctx):
     link = ScriptLink(_fault_reads(chip, code, case["script"], case["len"]))
     cs.transport = link
     simchip.CLOCK.reset()
+    failed = True
     try:
         cs.command(code, bytearray(payload), case["timeout"])
         ctx.label("returned")
+        failed = False
     except IOError as e:
         ctx.label("IOError:%s" % errno.errorcode.get(e.errno, e.errno))
     except nfc.clf.pn53x.Chipset.Error:
@@ -1806,8 +1808,9 @@ def run_cmd_faults(case, ctx):
     except Exception as e:
         raise unexpected(e, detail="%s command(%#x, %d bytes), reads %r"
                          % (chip, code, len(payload), case["script"]))
-    if len(link.writes) >= 2:
+    if failed or len(link.writes) >= 2:
         ctx.nontrivial()
+    if len(link.writes) >= 2:
         ctx.label("writes:%d" % min(len(link.writes), 4))
     seen_cmd = 0
     for w in link.writes:
@@ -1884,8 +1887,9 @@ LEGS = [
              "reached the transport is judged: exactly one well-formed "
              "command frame with the given code and payload, anything else "
              "must be the ACK frame (on the ACR122 inside a well-formed CCID "
-             "PC_to_RDR_XfrBlock message).  Non-trivial = the driver wrote "
-             "more than the command frame (a cancel)."),
+             "PC_to_RDR_XfrBlock message).  Non-trivial = command() ended "
+             "with an error or the driver wrote more than the command frame "
+             "(a cancel)."),
     Leg("rsp-mutations", run=run_response, enum=enum_rsp_mutations,
         exhaustive=True, shards_quick=8, shards_thorough=16,
         rule="per base response frame (7 chipset classes x 3 codes x payload "
